@@ -17,14 +17,385 @@ import (
 	"os"
 	"sort"
 	"strings"
+
+	"go.etcd.io/bbolt"
 )
 
-func init() { commands["store_c03s"] = runStoreC03s }
+func init() {
+	commands["store_c03s"] = runStoreC03s
+	for _, d := range c03DeepWirings {
+		d := d
+		extraWirings[d.name] = func() *wiring { return c03DeepWiring(d.name) }
+	}
+}
+
+// ---- wirings at deeper base paths ------------------------------------------------------------------
+//
+// Where an index lives (<BasePath>/indexes/<entity type>/<symbol>) is computed by the code under test from the
+// store definition's BasePath slice; length AND spare capacity of that slice are inputs of this computation.  The
+// wirings below place stores with SEVERAL indexes (unique and set, on the root store and on a child store, registered
+// in different orders) 1-4 levels deep, with exact-capacity paths and with one shared path slice that has spare
+// capacity.  For the store machine the place of an index is not observable: the schemas are the two shapes
+// acct / item below plus the stock idx and casc shapes (Examples/C03Wirings.v checks wf_unique_b / wf_setidx_b).
+
+type c03DeepDecl struct {
+	name  string
+	shape string // acct | item | idx | casc
+	depth int
+	slack int
+}
+
+var c03DeepWirings = []c03DeepDecl{
+	{"c03acct3", "acct", 3, 0},
+	{"c03item4", "item", 4, 0},
+	{"c03acct2s", "acct", 2, 3},
+	{"c03item1s", "item", 1, 4},
+	{"c03idx3", "idx", 3, 0},
+	{"c03casc4", "casc", 4, 0},
+	{"c03item3", "item", 3, 0},
+	{"c03acct4s", "acct", 4, 2},
+	{"c03acct2", "acct", 2, 0},
+}
+
+func c03DeepWiring(name string) *wiring {
+	for _, d := range c03DeepWirings {
+		if d.name != name {
+			continue
+		}
+		var w *wiring
+		switch d.shape {
+		case "acct":
+			// two unique indexes (one nullable, symbol name != storage key), two set indexes and an un-indexed field on one
+			// root store, a child store with its own unique index, a second root store; a unique index registered last
+			w = &wiring{Stores: []*sStore{
+				{Name: "acct", Fields: []sField{{Name: "name"}, {Name: "email", Ptr: true, Sym: "emailSym"}, {Name: "note", Ptr: true}}, Sets: []string{"topics", "groups"}},
+				{Name: "adm", Parent: "acct", Fields: []sField{{Name: "badge", Ptr: true}}},
+				{Name: "org", Fields: []sField{{Name: "title"}, {Name: "alias", Ptr: true}}, Sets: []string{"labels"}},
+			}, Script: []wiringDecl{
+				{Kind: "unique", Store: "acct", Field: "name"},
+				{Kind: "setidx", Store: "acct", Field: "topics"},
+				{Kind: "unique", Store: "acct", Field: "email", Nullable: true},
+				{Kind: "setidx", Store: "acct", Field: "groups"},
+				{Kind: "unique", Store: "adm", Field: "badge", Nullable: true},
+				{Kind: "setidx", Store: "org", Field: "labels"},
+				{Kind: "unique", Store: "org", Field: "title"},
+				{Kind: "unique", Store: "org", Field: "alias", Nullable: true},
+			}}
+		case "item":
+			// unique indexes first, set indexes last; a nullable fk index in between
+			w = &wiring{Stores: []*sStore{
+				{Name: "item", Fields: []sField{{Name: "code"}, {Name: "alias", Ptr: true}, {Name: "bin", Ptr: true}}, Sets: []string{"cats", "marks"}},
+				{Name: "bin", Fields: []sField{{Name: "label", Ptr: true}}, Sets: []string{"kinds"}},
+			}, Script: []wiringDecl{
+				{Kind: "unique", Store: "item", Field: "code"},
+				{Kind: "unique", Store: "item", Field: "alias", Nullable: true},
+				{Kind: "fkindex", Store: "item", Field: "bin", Target: "bin", Back: "items", Nullable: true},
+				{Kind: "setidx", Store: "item", Field: "marks"},
+				{Kind: "setidx", Store: "item", Field: "cats"},
+				{Kind: "unique", Store: "bin", Field: "label", Nullable: true},
+				{Kind: "setidx", Store: "bin", Field: "kinds"},
+			}}
+		default:
+			w = wiringByName(d.shape)
+		}
+		w.Name, w.Depth, w.Slack = d.name, d.depth, d.slack
+		return w
+	}
+	return nil
+}
+
+// ---- the read side of the indexes ------------------------------------------------------------------
+//
+// c03IndexReads observes every unique and set index through its read API (ReadIndex.Read, SetReadIndex.Read /
+// ReadKeys), probing every string that is stored anywhere in the database (any field, any set, any index key of any
+// store - so a value of field A is looked up through the index of field B).  Tokens:
+//
+//	IXP:<hex>,<hex>...                      the probed values
+//	IXU:<store>:<field>:<hex value>:<hex id>  Read returned an id (absent token = nil)
+//	IXS:<store>:<set>:<hex value>:<hex id>,.. Read visited these ids (absent token = none)
+//	IXK:<store>:<set>:<hex key>,...           ReadKeys
+//	IXTOP:<hex name>                          a bucket / key at the top of the bolt file other than the base path's first element
+//
+// The store machine has no counterpart: checks/c03.py compares them with what the entities of the same
+// observation hold (unique_index_mirrors / set_index_mirrors / no_empty_index_keys read from right to left).
+func c03IndexReads(h *harnessDb) (out string) {
+	defer func() {
+		if r := recover(); r != nil {
+			out = " IXPANIC:" + hxs(fmt.Sprint(r))
+		}
+	}()
+	vals := map[string]bool{}
+	for _, f := range h.facts() {
+		p := strings.Split(f, ":")
+		var v string
+		switch p[0] {
+		case "F", "CF":
+			v = p[len(p)-1]
+			if !strings.HasPrefix(v, "s") {
+				continue
+			}
+			v = v[1:]
+		case "S":
+			v = p[4]
+		case "U", "X", "XK":
+			v = p[3]
+		default:
+			continue
+		}
+		vals[string(unhx(v))] = true
+	}
+	var probe []string
+	for v := range vals {
+		probe = append(probe, v)
+	}
+	sort.Strings(probe)
+	var sb strings.Builder
+	hexes := make([]string, 0, len(probe))
+	for _, v := range probe {
+		hexes = append(hexes, hxs(v))
+	}
+	if len(hexes) > 0 {
+		sb.WriteString(" IXP:" + strings.Join(hexes, ","))
+	}
+	_ = h.db.View(func(tx *bbolt.Tx) error {
+		_ = tx.ForEach(func(name []byte, _ *bbolt.Bucket) error {
+			if string(name) != h.w.basePath()[0] {
+				sb.WriteString(" IXTOP:" + hx(name))
+			}
+			return nil
+		})
+		for _, def := range h.w.Stores {
+			gs := h.stores[def.Name]
+			for _, c := range def.Cons {
+				switch c.Kind {
+				case "U":
+					idx := gs.uidx[c.Field]
+					if idx == nil {
+						continue
+					}
+					for _, v := range probe {
+						if id := idx.Read(tx, []byte(v)); id != nil {
+							fmt.Fprintf(&sb, " IXU:%s:%s:%s:%s", def.Name, c.Field, hxs(v), hx(id))
+						}
+					}
+				case "SI":
+					idx := gs.sidx[c.Field]
+					if idx == nil {
+						continue
+					}
+					for _, v := range probe {
+						var ids []string
+						idx.Read(tx, []byte(v), func(id []byte) { ids = append(ids, hx(id)) })
+						if len(ids) > 0 {
+							sort.Strings(ids)
+							fmt.Fprintf(&sb, " IXS:%s:%s:%s:%s", def.Name, c.Field, hxs(v), strings.Join(ids, ","))
+						}
+					}
+					var keys []string
+					idx.ReadKeys(tx, func(k []byte) { keys = append(keys, hx(k)) })
+					if len(keys) > 0 {
+						sort.Strings(keys)
+						fmt.Fprintf(&sb, " IXK:%s:%s:%s", def.Name, c.Field, strings.Join(keys, ","))
+					}
+				}
+			}
+		}
+		return nil
+	})
+	return sb.String()
+}
 
 type warmGen struct {
 	*histGen
 	sets map[string]map[string]map[string][]string // root -> id -> set field -> believed members
 	uniq map[string]map[string]string              // "root.field" -> value -> believed holder
+	cross   bool                       // also emit operations that carry a value from one indexed field into another one
+	inChild map[string]map[string]bool // child store -> ids believed to live in it
+}
+
+func (g *warmGen) isSetIdx(store, set string) bool {
+	for _, d := range g.w.Script {
+		if d.Kind == "setidx" && d.Store == store && d.Field == set {
+			return true
+		}
+	}
+	return false
+}
+
+// c03CrossFieldOp: a field-restricted (sometimes full) update that stores, in one indexed or plain field of an entity,
+// a value that is believed to be held at the moment - by the same or by another entity of the store family - in a
+// DIFFERENT indexed field (unique -> other unique, unique -> set, set -> unique, set -> other set, indexed -> plain).
+// Each index has its own key space, so such an update is legal unless the value is taken in the target index itself.
+func (g *warmGen) c03CrossFieldOp() (hOp, bool) {
+	var cands []string
+	for _, s := range g.w.Stores {
+		root := g.rootOf(s.Name)
+		_, sets := g.w.allFields(s.Name)
+		n := len(g.uniqueFields(s.Name))
+		for _, sn := range sets {
+			if g.isSetIdx(root, sn) {
+				n++
+			}
+		}
+		ids := g.aliveIds(root)
+		if s.Parent != "" {
+			ids = nil
+			for _, id := range g.aliveIds(root) {
+				if g.inChild[s.Name][id] {
+					ids = append(ids, id)
+				}
+			}
+		}
+		if n >= 2 && len(ids) > 0 {
+			cands = append(cands, s.Name)
+		}
+	}
+	if len(cands) == 0 {
+		return hOp{}, false
+	}
+	store := cands[g.r.intn(len(cands))]
+	root := g.rootOf(store)
+	al := g.aliveIds(root)
+	if g.w.store(store).Parent != "" {
+		al = nil
+		for _, id := range g.aliveIds(root) {
+			if g.inChild[store][id] {
+				al = append(al, id)
+			}
+		}
+	}
+	// what is believed to be held, and where ("u:<decl>.<field>" / "s:<set>")
+	type heldVal struct{ v, slot string }
+	var held []heldVal
+	ukeys := g.uniqueFields(store)
+	for _, key := range ukeys {
+		var vs []string
+		for v := range g.uniq[key] {
+			vs = append(vs, v)
+		}
+		sort.Strings(vs)
+		for _, v := range vs {
+			held = append(held, heldVal{v, "u:" + key})
+		}
+	}
+	_, sets := g.w.allFields(store)
+	for _, id := range g.aliveIds(root) {
+		for _, sn := range sets {
+			if g.sets[root] == nil || g.sets[root][id] == nil || !g.isSetIdx(root, sn) {
+				continue
+			}
+			for _, m := range dedupSorted(g.sets[root][id][sn]) {
+				if m != "" {
+					held = append(held, heldVal{m, "s:" + sn})
+				}
+			}
+		}
+	}
+	if len(held) == 0 {
+		return hOp{}, false
+	}
+	src := held[g.r.intn(len(held))]
+	// target slots: every other unique field, every other set, every plain field that is not an fk
+	var slots []string
+	for _, key := range ukeys {
+		slots = append(slots, "u:"+key)
+	}
+	for _, sn := range sets {
+		slots = append(slots, "s:"+sn)
+	}
+	fields, _ := g.w.allFields(store)
+	for _, f := range fields {
+		owner := store
+		if g.fkTargetOf(owner, f.Name) == "" && g.w.store(store).Parent != "" {
+			owner = g.w.store(store).Parent
+		}
+		isU := false
+		for _, key := range ukeys {
+			isU = isU || key[strings.Index(key, ".")+1:] == f.Name
+		}
+		if g.fkTargetOf(owner, f.Name) == "" && !isU {
+			slots = append(slots, "p:"+f.Name)
+		}
+	}
+	var other []string
+	for _, sl := range slots {
+		if sl != src.slot {
+			other = append(other, sl)
+		}
+	}
+	if len(other) == 0 {
+		return hOp{}, false
+	}
+	dst := other[g.r.intn(len(other))]
+	op := hOp{Kind: "UP", Store: store, Id: al[g.r.intn(len(al))]}
+	g.fieldsValue(&op)
+	var fname string
+	switch dst[0] {
+	case 'u':
+		key := dst[2:]
+		fname = key[strings.Index(key, ".")+1:]
+		if holder := g.uniq[key][src.v]; holder != "" && holder != op.Id && !g.r.chance(12) {
+			// taken in the target index as well: a genuine duplicate; mostly hand it to its holder instead
+			op.Id = holder
+		}
+		op.F[fname] = sp(src.v)
+	case 'p':
+		fname = dst[2:]
+		op.F[fname] = sp(src.v)
+	case 's':
+		fname = dst[2:]
+		var cur []string
+		if g.sets[root] != nil && g.sets[root][op.Id] != nil {
+			cur = append(cur, g.sets[root][op.Id][fname]...)
+		}
+		if g.r.chance(25) {
+			cur = nil
+		}
+		op.S[fname] = append(cur, src.v)
+	}
+	if g.r.chance(88) {
+		op.HasChk = true
+		op.Checker = []string{fname}
+	} else {
+		// a full update: keep what the entity is believed to hold elsewhere
+		for _, key := range ukeys {
+			f := key[strings.Index(key, ".")+1:]
+			if f == fname {
+				continue
+			}
+			delete(op.F, f)
+			for v, id := range g.uniq[key] {
+				if id == op.Id {
+					op.F[f] = sp(v)
+				}
+			}
+			if op.F[f] == nil {
+				if v, ok := g.freeValue(key); ok {
+					op.F[f] = sp(v)
+				}
+			}
+		}
+		for _, sn := range sets {
+			if sn != fname && g.sets[root] != nil && g.sets[root][op.Id] != nil {
+				op.S[sn] = append([]string{}, g.sets[root][op.Id][sn]...)
+			}
+		}
+	}
+	if dst[0] == 's' || !op.HasChk {
+		if g.sets[root] == nil {
+			g.sets[root] = map[string]map[string][]string{}
+		}
+		if g.sets[root][op.Id] == nil {
+			g.sets[root][op.Id] = map[string][]string{}
+		}
+		for sn, l := range op.S {
+			if !op.HasChk || sn == fname {
+				g.sets[root][op.Id][sn] = append([]string{}, l...)
+			}
+		}
+	}
+	g.noteUnique(&op)
+	return op, true
 }
 
 func (g *warmGen) rootOf(store string) string {
@@ -139,6 +510,15 @@ func (g *warmGen) validCreate(store string) (hOp, bool) {
 		op.S[sn] = l
 	}
 	g.alive[root][op.Id] = true
+	if g.w.store(store).Parent != "" {
+		if g.inChild == nil {
+			g.inChild = map[string]map[string]bool{}
+		}
+		if g.inChild[store] == nil {
+			g.inChild[store] = map[string]bool{}
+		}
+		g.inChild[store][op.Id] = true
+	}
 	g.noteUnique(&op)
 	if g.sets[root] == nil {
 		g.sets[root] = map[string]map[string][]string{}
@@ -296,6 +676,11 @@ func (g *warmGen) uniqueUpdate() (hOp, bool) {
 }
 
 func (g *warmGen) warmOp() hOp {
+	if g.cross && g.r.chance(35) {
+		if op, ok := g.c03CrossFieldOp(); ok {
+			return op
+		}
+	}
 	switch k := g.r.intn(100); {
 	case k < 40:
 		if op, ok := g.setUpdate(); ok {
@@ -316,6 +701,9 @@ func (g *warmGen) warmOp() hOp {
 		if al := g.aliveIds(root); len(al) > 0 {
 			op := hOp{Kind: "D", Store: st.Name, Id: al[g.r.intn(len(al))]}
 			delete(g.alive[root], op.Id)
+			for _, m := range g.inChild {
+				delete(m, op.Id)
+			}
 			for _, m := range g.uniq {
 				for v, id := range m {
 					if id == op.Id {
@@ -333,6 +721,7 @@ func (g *warmGen) genHistoryWarm() []hTx {
 	g.alive = map[string]map[string]bool{}
 	g.sets = map[string]map[string]map[string][]string{}
 	g.uniq = map[string]map[string]string{}
+	g.inChild = map[string]map[string]bool{}
 	var roots []*sStore
 	for _, s := range g.w.Stores {
 		if s.Parent == "" {
@@ -407,6 +796,7 @@ func runStoreC03s(o *opts) error {
 	defer impl.close()
 	tmp := o.get("tmp", os.TempDir())
 	stats := map[string]int{}
+	storeExtraReads = c03IndexReads
 	n := 400
 	if o.thorough() {
 		n = 6000
@@ -437,9 +827,12 @@ func runStoreC03s(o *opts) error {
 			stats["corpus"]++
 		}
 	}
-	r := newRng(o.seed)
-	for i := 0; i < n; i++ {
-		w := wiringByName(prof.wirings[(i/2)%len(prof.wirings)])
+	if o.n == 0 && o.get("corpus", "") != "" && o.get("profile", "") == "" {
+		// replay: only the given cases
+		writeJSON(o.out, "stats.json", stats)
+		return nil
+	}
+	one := func(r *rng, w *wiring, i int, cross bool) error {
 		w.derive()
 		g := &histGen{r: r, w: w, p: prof, ids: prof.ids}
 		var txs []hTx
@@ -461,7 +854,7 @@ func runStoreC03s(o *opts) error {
 			c = cb.String()
 			stats["histories_live"]++
 		} else {
-			txs = (&warmGen{histGen: g}).genHistoryWarm()
+			txs = (&warmGen{histGen: g, cross: cross}).genHistoryWarm()
 			stats["histories_warm"]++
 			var err error
 			c, obs, err = runHistory(w, txs, tmp)
@@ -497,6 +890,27 @@ func runStoreC03s(o *opts) error {
 		for _, k := range []string{" dup", " notfound", " refexists", " err"} {
 			stats["res_"+strings.TrimSpace(k)] += strings.Count(obs, k+" ") // approximate
 		}
+		stats["index_reads_unique"] += strings.Count(obs, " IXU:")
+		stats["index_reads_set"] += strings.Count(obs, " IXS:")
+		return nil
+	}
+	r := newRng(o.seed)
+	for i := 0; i < n; i++ {
+		if err := one(r, wiringByName(prof.wirings[(i/2)%len(prof.wirings)]), i, false); err != nil {
+			return err
+		}
+	}
+	// deeper / shared / slack base paths, several indexes per store, values crossing from one indexed field to another
+	// (own random stream: the histories above do not depend on this part)
+	rd := newRng(o.seed*7919 + 3)
+	nDeep := n / 3
+	for i := 0; i < nDeep; i++ {
+		d := c03DeepWirings[(i/2)%len(c03DeepWirings)]
+		if err := one(rd, wiringByName(d.name), i, true); err != nil {
+			return err
+		}
+		stats["deep_histories"]++
+		stats[fmt.Sprintf("deep_depth_%d_slack_%v", d.depth, d.slack > 0)]++
 	}
 	writeJSON(o.out, "stats.json", stats)
 	fmt.Fprintf(os.Stderr, "store_c03s: %d histories\n", n)
